@@ -15,8 +15,10 @@ pub mod composite;
 pub mod config;
 pub mod cq;
 pub mod encode;
+pub mod fds;
 pub mod inotify;
 pub mod life;
+pub mod pool;
 pub mod readbuf;
 pub mod smoke;
 pub mod sq;
@@ -249,6 +251,8 @@ pub fn run(a: &Args) -> i32 {
         "addr" => run_comp(a, &mut addr::AddrComp),
         "life" => run_comp(a, &mut life::LifeComp),
         "cq" => run_comp(a, &mut cq::CqComp),
+        "fds" => run_comp(a, &mut fds::FdsComp),
+        "pool" => run_comp(a, &mut pool::PoolComp),
         "encode" => run_comp(a, &mut encode::EncodeComp),
         "sq" => run_comp(a, &mut sq::SqComp),
         "blk" => run_comp(a, &mut blk::BlkComp),
